@@ -17,7 +17,7 @@ import (
 	"verifharness/tlc"
 )
 
-const taskBin = "/verif/.work/bin/task"
+var taskBin = rep.Root + "/.work/bin/task"
 
 type vCase struct {
 	Cfg map[string]any
